@@ -6,12 +6,15 @@ import json
 import os
 import re
 
-from vlib import core, coqlit, fol_ast, fol_gen
+from vlib import core, coqlit, fol_ast, fol_gen, bitvector_gen
 from vlib.core import Broken, Mismatch, Failing
 
 ID = 'C06'
 LEVEL = 'proof'
 THEORIES = ['theories/L1Circuits/CircuitsProofs.vo', 'theories/L1Circuits/DeepProofs.vo',
+            'theories/L1Circuits/PyBitsProofs.vo',
+            'theories/L2Compile/EmitProofs.vo',
+            'theories/L2Compile/ThreadProofs.vo',
             'theories/L2Compile/AcceptProofs.vo',
             'theories/L2Compile/CompileProofs.vo',
             'theories/L2Compile/Check.vo']
@@ -130,15 +133,35 @@ def gen_opmap(ctx):
 def prove(ctx):
     with ctx.coq_lock():
         gen_opmap(ctx)
-        ctx.prove('Properties/C06.v', timeout=900)
+        # tie T: regenerate gen/BitvectorGen.v from the current bitvector.py,
+        # then re-prove GenProofs/BitvectorBridge.v (generated circuits =
+        # emitter model), GenProofs/BitvectorCorrect.v and the statements
+        notes, templates = bitvector_gen.ensure_bitvector(ctx)
+        ctx.prove_with_deps('Properties/C06.v', timeout=900)
+    ctx.extra['translation'] = dict(
+        source=bitvector_gen.SRC, functions=bitvector_gen.FUNCTIONS,
+        generated='coq/gen/BitvectorGen.v',
+        bridge=['coq/GenProofs/BitvectorBridge.v',
+                'coq/GenProofs/BitvectorFlatBridge.v',
+                'coq/GenProofs/BitvectorCorrect.v'],
+        string_templates=templates, notes=notes)
+    ctx.trusted.append(
+        'translator tie T: tools/py2coq_bitvector.py (circuit layer of '
+        'omega/logic/bitvector.py -> Gallina: ints = Z, lists of bit '
+        'formulas = list bx, prefix-syntax strings read as trees through the '
+        'fixed template table printed in coq/gen/BitvectorGen.v, exceptions '
+        '= None, in-place list mutation = returned values under an '
+        'ownership check, recursion on fuel; everything not translated is '
+        'listed as a note in coq/gen/BitvectorGen.v and in the evidence)')
     ctx.trusted.append(
         'tie G: Nodes.opmap and the operator strings of flatten_comparator/'
         'flatten_arithmetic are read from the source with ast; the documented '
         'tokens from doc/doc.md; the lexer normal forms by running the lexer')
     ctx.trusted.append(
-        'tie H: the prefix string with memory buffers ($ n, ? i) and its '
-        'evaluation by symbolic/bdd.py are not in the shallow model; they are '
-        'covered by the truth-table correspondence only')
+        'tie H: the threading of mem/prime through Nodes.*.flatten (which '
+        'circuit is called on which operands, in which scope) and the '
+        'evaluation of the prefix string by symbolic/bdd.py are covered by '
+        'the truth-table correspondence only')
     ctx.trusted.append(
         'names: LET/registered definitions live in a separate name space in '
         'the model (formulas whose definitions re-use a declared variable '
